@@ -265,6 +265,16 @@ template <typename V> void family()
     checked++;
     if (o2.str() != e2.str()) { failed++; printf("FAIL type=%s n=%d op=stream_fmt got=%s expected=%s\n", tname<T>(), N, o2.str().c_str(), e2.str().c_str()); }
   }
+  // length(): the square root of dot(v,v) taken in double precision (no narrower), converted to T - for every element
+  // type, not only float
+  {
+    T dd = dot(a, a);
+    CHECK_SCALAR("length", length(a), (T)::sqrt((double)dd), showv(a))
+    V big = a;
+    set(big, 0, (T)(std::is_floating_point<T>::value ? (sizeof(T) == 8 ? 1e20 : 1e10) : (sizeof(T) >= 8 ? 1000000007 : 11)));
+    T db = dot(big, big);
+    CHECK_SCALAR("length_big", length(big), (T)::sqrt((double)db), showv(big))
+  }
   extra<V>::run(a, b);
 }
 
